@@ -1125,10 +1125,7 @@ pub fn gen_script(rng: &mut Rng, len: usize) -> Vec<Op> {
             5 => { let n = rng.range(0, 4) as usize; nlog += n; Op::CreateIter { atomic: true, n } }
             6 => Op::DelNow(pick_slot(rng, nlog)),
             7 => {
-                let n = rng.range(0, 5) as usize;
-                let mut hs: Vec<usize> = (0..n).map(|_| pick_slot(rng, nlog)).collect();
-                if n >= 2 && rng.chance(1, 3) { hs[n - 1] = hs[0]; }
-                Op::DelBatch(hs)
+                Op::DelBatch(gen_batch(rng, nlog, 6))
             }
             8 => Op::DelAtomic(pick_slot(rng, nlog)),
             9 => Op::DelAll,
@@ -1229,7 +1226,7 @@ fn gen_store_op_inner(rng: &mut Rng, ws: &[u32; 31], p: &StoreProfile, k: usize,
         18 => Op::Events(k),
         19 => Op::DelNow(h),
         20 => Op::DelAtomic(h),
-        21 => { let n = rng.range(1, 4) as usize; let mut hs: Vec<usize> = (0..n).map(|_| pick_slot(rng, *nlog)).collect(); if n >= 2 && rng.chance(1, 3) { hs[n - 1] = hs[0]; } Op::DelBatch(hs) }
+        21 => Op::DelBatch(gen_batch(rng, *nlog, 5)),
         22 => Op::Maintain,
         23 => Op::LazyIns(k, h, nv(val)),
         24 => { let n = rng.range(1, 3) as usize; Op::LazyInsAll(k, (0..n).map(|_| { *val += 1; (pick_slot(rng, *nlog), if null { 0 } else { *val }) }).collect()) }
@@ -1261,6 +1258,20 @@ fn gen_store_op_inner(rng: &mut Rng, ws: &[u32; 31], p: &StoreProfile, k: usize,
         29 => Op::DelAll,
         _ => { let n = rng.range(1, 3) as usize; *nlog += n; Op::CreateIter { atomic: rng.chance(1, 2), n } }
     }
+}
+
+/// A deletion batch: handles drawn from the log, with repetitions ANYWHERE (a repeated handle before a dead one is
+/// what makes a failing batch interesting), sometimes an old (probably dead) handle towards the end.
+fn gen_batch(rng: &mut Rng, nlog: usize, max: u64) -> Vec<usize> {
+    let n = rng.range(0, max) as usize;
+    let mut hs: Vec<usize> = Vec::new();
+    let mut repeated = false;
+    for i in 0..n {
+        if i >= 1 && rng.chance(1, 4) { let j = rng.below(i as u64) as usize; let h = hs[j]; hs.push(h); repeated = true; }
+        else if i >= 2 && rng.chance(if repeated { 1 } else { 1 }, if repeated { 2 } else { 5 }) { hs.push(rng.below(nlog.max(1) as u64) as usize); }
+        else { hs.push(pick_slot(rng, nlog)); }
+    }
+    hs
 }
 
 /// Random history over storages: registration (by random paths, sometimes late), then ops.
@@ -1361,6 +1372,7 @@ pub fn exhaustive_alphabet() -> Vec<Op> {
         Op::DelBatch(vec![0, 0]),
         Op::DelBatch(vec![1, 0]),
         Op::DelBatch(vec![0, 1, 2]),
+        Op::DelBatch(vec![1, 1, 0]),
         Op::DelAll,
         Op::Maintain,
         Op::CreateIter { atomic: true, n: 2 },
